@@ -2,6 +2,7 @@ package props
 
 import (
 	"github.com/Syuparn/pangaea/object"
+	"sort"
 )
 
 // MapProps provides built-in props for Map.
@@ -171,7 +172,21 @@ func compMaps(
 		return object.BuiltInFalse
 	}
 
-	for hash, pair1 := range *m1.Pairs {
+	// NOTE: compare in a fixed order (map iteration order is random
+	// and `==` of elements may be defined by users)
+	hashes := make([]object.HashKey, 0, len(*m1.Pairs))
+	for hash := range *m1.Pairs {
+		hashes = append(hashes, hash)
+	}
+	sort.Slice(hashes, func(i, j int) bool {
+		if hashes[i].Type != hashes[j].Type {
+			return hashes[i].Type < hashes[j].Type
+		}
+		return hashes[i].Value < hashes[j].Value
+	})
+
+	for _, hash := range hashes {
+		pair1 := (*m1.Pairs)[hash]
 		pair2, ok := (*m2.Pairs)[hash]
 		if !ok {
 			return object.BuiltInFalse
